@@ -11,7 +11,7 @@ import (
 
 func main() {
 	if len(os.Args) < 2 {
-		fmt.Fprintln(os.Stderr, "usage: rel <tm|hist|ref|race|ilv|ilvnode> [flags]")
+		fmt.Fprintln(os.Stderr, "usage: rel <tm|hist|ref|race|ilv|ilvnode|initfail> [flags]")
 		os.Exit(2)
 	}
 	fs := flag.NewFlagSet(os.Args[1], flag.ExitOnError)
@@ -30,6 +30,8 @@ func main() {
 		runRace(*n, *out, *replay)
 	case "ilv":
 		runIlv(*n, *out, *replay)
+	case "initfail":
+		runInitFail(*n, *out, *replay)
 	case "ilvnode":
 		runIlvNode(*n, *out, *replay)
 	default:
